@@ -79,6 +79,36 @@ theorem subscript_irrelevant (env : Json) (src : Str) (hsrc : CF 126 src) :
   inlineParse_irrelevant_rule _ _ _ _ _ _ adds_subscript (by decide +kernel) (by decide +kernel) (by decide +kernel)
     126 (by decide +kernel) env src hsrc
 
+theorem adds_url_link : AddsInlineRule (ofRuleCfg cfg_core) (ofRuleCfg cfg_only_url) "url_link"
+    (ruleRx (ofRuleCfg cfg_only_url) "url_link")
+    (preOf (ofRuleCfg cfg_only_url) "url_link") (postOf (ofRuleCfg cfg_only_url) "url_link") :=
+  ⟨rfl, by decide +kernel, by decide +kernel, by decide +kernel, by decide +kernel, by decide +kernel⟩
+
+/-- **`url_link` only affects sources containing `:`** (`:` is one of the needed characters of its pattern) -/
+theorem url_link_irrelevant (env : Json) (src : Str) (hsrc : CF 58 src) :
+    Model.inlineParse (ofRuleCfg cfg_only_url) env src = Model.inlineParse (ofRuleCfg cfg_core) env src :=
+  inlineParse_irrelevant_rule _ _ _ _ _ _ adds_url_link (by decide +kernel) (by decide +kernel) (by decide +kernel)
+    58 (by decide +kernel) env src hsrc
+
+theorem adds_inline_spoiler : AddsInlineRule (ofRuleCfg cfg_core) (ofRuleCfg cfg_only_spoiler) "inline_spoiler"
+    (ruleRx (ofRuleCfg cfg_only_spoiler) "inline_spoiler")
+    (preOf (ofRuleCfg cfg_only_spoiler) "inline_spoiler") (postOf (ofRuleCfg cfg_only_spoiler) "inline_spoiler") :=
+  ⟨rfl, by decide +kernel, by decide +kernel, by decide +kernel, by decide +kernel, by decide +kernel⟩
+
+/-- **`inline_spoiler` only affects sources containing `>`** (`>` is one of the needed characters of its pattern) -/
+theorem inline_spoiler_irrelevant (env : Json) (src : Str) (hsrc : CF 62 src) :
+    Model.inlineParse (ofRuleCfg cfg_only_spoiler) env src = Model.inlineParse (ofRuleCfg cfg_core) env src :=
+  inlineParse_irrelevant_rule _ _ _ _ _ _ adds_inline_spoiler (by decide +kernel) (by decide +kernel) (by decide +kernel)
+    62 (by decide +kernel) env src hsrc
+
+-- `ruby`: `AddsInlineRule` holds for `core` / `only-ruby` and the pattern needs `[`, `(`, `)`, `]`; `nameOk "ruby"` is
+-- false (the fallback of `rubyRe` reads `inlineSpec["ruby"]`), although the regenerated `named` table has `_ruby_re`,
+-- so the fallback is dead: relaxing `nameOk` to `name != "ruby" || (cfg.named.lookup "…_ruby_re").isSome` is the fix.
+example : AddsInlineRule (ofRuleCfg cfg_core) (ofRuleCfg cfg_only_ruby) "ruby" (ruleRx (ofRuleCfg cfg_only_ruby) "ruby")
+    (preOf (ofRuleCfg cfg_only_ruby) "ruby") (postOf (ofRuleCfg cfg_only_ruby) "ruby") :=
+  ⟨rfl, by decide +kernel, by decide +kernel, by decide +kernel, by decide +kernel, by decide +kernel⟩
+example : (91 : Nat) ∈ (ruleRx (ofRuleCfg cfg_only_ruby) "ruby").needs := by decide +kernel
+
 end Inl
 end Model
 end Mistune
